@@ -1,0 +1,78 @@
+//! Verification hook H6 (feature `verif`, off by default, no behaviour): compile-time checks that
+//! every component type of `EmmyLuaAnalysis` is `Send + Sync` *on its own*, i.e. without the
+//! `unsafe impl Send/Sync for EmmyLuaAnalysis` in lib.rs. A component that loses thread safety
+//! (an `Rc`, a `RefCell`, a rowan `SyntaxNode`, …) makes a build with `--features verif` fail.
+//! The list mirrors the field types of `EmmyLuaAnalysis`, `LuaCompilation`, `DbIndex`,
+//! `LuaDiagnostic` and `Vfs`; /verif's extractor checks that it stays complete.
+#![allow(dead_code)]
+
+use crate::*;
+
+fn assert_send_sync<T: Send + Sync>() {}
+
+/// `T` must implement neither `Send` nor `Sync` on its own (used for the types that are *known* not
+/// to be thread safe, so that the derivation model is also cross-checked in the negative direction).
+macro_rules! assert_not_send_not_sync {
+    ($name:ident, $t:ty) => {
+        const _: fn() = || {
+            trait AmbiguousIfSend<A> {
+                fn some_item() {}
+            }
+            impl<T: ?Sized> AmbiguousIfSend<()> for T {}
+            struct IsSend;
+            impl<T: ?Sized + Send> AmbiguousIfSend<IsSend> for T {}
+            let _ = <$t as AmbiguousIfSend<_>>::some_item;
+            trait AmbiguousIfSync<A> {
+                fn some_item() {}
+            }
+            impl<T: ?Sized> AmbiguousIfSync<()> for T {}
+            struct IsSync;
+            impl<T: ?Sized + Sync> AmbiguousIfSync<IsSync> for T {}
+            let _ = <$t as AmbiguousIfSync<_>>::some_item;
+        };
+    };
+}
+
+fn components_are_send_sync() {
+    // EmmyLuaAnalysis { compilation, diagnostic, emmyrc }
+    assert_send_sync::<LuaCompilation>();
+    assert_send_sync::<LuaDiagnostic>();
+    assert_send_sync::<Arc<Emmyrc>>();
+    // LuaCompilation { db, emmyrc }
+    assert_send_sync::<DbIndex>();
+    // LuaDiagnostic { enable, config: Arc<LuaDiagnosticConfig> }: the config type is private to
+    // `diagnostic`; it is covered structurally by the assertion on `LuaDiagnostic` above
+    // (no manual Send/Sync impl exists for either type).
+    // DbIndex { … }
+    assert_send_sync::<LuaDeclIndex>();
+    assert_send_sync::<LuaReferenceIndex>();
+    assert_send_sync::<LuaTypeIndex>();
+    assert_send_sync::<LuaModuleIndex>();
+    assert_send_sync::<LuaMemberIndex>();
+    assert_send_sync::<LuaPropertyIndex>();
+    assert_send_sync::<LuaSignatureIndex>();
+    assert_send_sync::<DiagnosticIndex>();
+    assert_send_sync::<LuaOperatorIndex>();
+    assert_send_sync::<LuaFlowIndex>();
+    assert_send_sync::<Vfs>();
+    assert_send_sync::<LuaDependencyIndex>();
+    assert_send_sync::<LuaMetatableIndex>();
+    assert_send_sync::<LuaGlobalIndex>();
+    assert_send_sync::<JsonSchemaIndex>();
+    // Vfs { … }
+    assert_send_sync::<emmylua_parser::LuaSyntaxTree>();
+    assert_send_sync::<emmylua_parser::LineIndex>();
+    assert_send_sync::<rowan::NodeCache>();
+    // frequently shared leaves
+    assert_send_sync::<LuaType>();
+    assert_send_sync::<LuaDecl>();
+    assert_send_sync::<LuaMember>();
+    assert_send_sync::<LuaSignature>();
+    assert_send_sync::<LuaTypeDecl>();
+    assert_send_sync::<Emmyrc>();
+}
+
+// Per-query objects that are *not* held by the shared analysis and are not thread safe on their own
+// (they carry `unsafe impl Send/Sync` or are never shared): the derivation model says "neither".
+assert_not_send_not_sync!(lua_chunk, emmylua_parser::LuaChunk);
+assert_not_send_not_sync!(syntax_node, emmylua_parser::LuaSyntaxNode);
